@@ -844,21 +844,21 @@ int main(int argc, char **argv) {
   // every program: a few PCT schedules (macro, with correspondence) incl. spurious wake-ups;
   // a seeded selection of programs: exhaustive DFS with <=2 (quick) / <=3 (thorough) preemptions;
   // fine-grained (every shim operation) PCT + bounded DFS for the oracles alone.
-  long per_prog_dfs = budget >= 0 ? budget : (R.thorough() ? 6000 : 700);
-  size_t n_dfs = R.thorough() ? ps.size() : std::min<size_t>(ps.size(), 14);
+  long per_prog_dfs = budget >= 0 ? budget : (R.thorough() ? 6000 : 250);
+  size_t n_dfs = R.thorough() ? ps.size() : std::min<size_t>(ps.size(), 8);
   std::set<size_t> pick;
   while (pick.size() < n_dfs) pick.insert(static_cast<size_t>(rng.below(ps.size())));
   for (size_t i = 0; i < ps.size(); ++i) {
     const Spec &sp = ps[i];
-    int npct = R.thorough() ? 60 : 6;
+    int npct = R.thorough() ? 60 : 4;
     for (int k = 0; k < npct; ++k) G.pct(sp, rng.next(), 1 + static_cast<int>(rng.below(4)), k % 3 == 0 ? 2 : 0, false, 60);
-    int nfine = R.thorough() ? 30 : 3;
-    for (int k = 0; k < nfine; ++k) G.pct(sp, rng.next(), 1 + static_cast<int>(rng.below(4)), k % 3 == 2 ? 1 : 0, true, 200);
+    int nfine = R.thorough() ? 30 : 2;
+    for (int k = 0; k < nfine; ++k) G.pct(sp, rng.next(), 1 + static_cast<int>(rng.below(4)), k % 3 == 1 ? 1 : 0, true, 200);
     G.rnd(sp, rng.next(), 2, false);
     if (pick.count(i)) {
       G.dfs(sp, R.thorough() ? 3 : 2, per_prog_dfs, 0, false);
-      G.dfs(sp, 1, R.thorough() ? 1500 : 150, 1, false);
-      G.dfs(sp, R.thorough() ? 2 : 1, R.thorough() ? 3000 : 250, 0, true);
+      G.dfs(sp, 1, R.thorough() ? 1500 : 80, 1, false);
+      G.dfs(sp, R.thorough() ? 2 : 1, R.thorough() ? 3000 : 120, 0, true);
     }
   }
   R.extra["executions"] = G.n_exec;
